@@ -9,17 +9,24 @@ VERUS = {
     'int_modadd2': {'file': 'int_modadd2.rs', 'w32': True},
     # modular/mul.rs mul_normalized, sqr_normalized, mul_in_place, sqr_in_place (+ primitive::locate_top_word_plus_one):
     #   stored: val(out) == ((A * B) >> shift) mod M < M, aligned;   residues: resid(out) == (ra * rb) mod m
-    'int_modmul': {'file': 'int_modmul.rs', 'w32': True},
+    'int_modmul': {'file': 'int_modmul.rs', 'w32': True, 'rlimit': 40},   # default 10; observed use ~1.5 (headroom only)
+    # modular/div.rs inv_large: Some(x) ==> x valid and resid(a) * resid(x) == 1 (mod m);  None ==> gcd(resid(a), m) != 1
+    # (by divisibility: a common divisor >= 2 exists), over ASSUMED gcd_ext contracts (lib/mod2_gcd.rs)
+    'int_moddiv': {'file': 'int_moddiv.rs', 'w32': True},
 }
 
 PROP_UNITS = {
-    'C13': {'verus': ['int_modadd2', 'int_modmul'],
-            'undecided': ['int_modmul ASSUMES (//@@ SIG, trusted contracts): mul::multiply and sqr::sqr return the exact product, '
+    'C13': {'verus': ['int_modadd2', 'int_modmul', 'int_moddiv'],
+            'undecided': ['int_moddiv ASSUMES (lib/mod2_gcd.rs, trusted): gcd::gcd_ext_word / gcd_ext_dword / gcd_ext_in_place (Lehmer) '
+                          'return g = gcd with lhs*a + rhs*b == g, |b| < lhs, exact lengths; primitive::lowest_dword; '
+                          'Buffer::from / into_boxed_slice; <[T]>::fill; inv() of single/double-word rings (num_modular) '
+                          'and the Div operators (inv + mul dispatch, panic on None) are not under contract',
+                          'int_modmul ASSUMES (//@@ SIG, trusted contracts): mul::multiply and sqr::sqr return the exact product, '
                           'div::div_rem_in_place returns lhs == q*rhs + r with r < rhs (proved for the schoolbook branch in unit '
                           'int_div_ops); Memory::allocate_slice_fill, Box deref/eq (lib/mod2_mem.rs); cmp_same_len; the '
                           'scratch-memory SIZING (mul_memory_requirement) is not verified',
                           'negate_in_place: `raw.0.iter().all(|w| *w == 0)` is lowered by rule D15 to the verified helper '
                           '__slice_all_eq (meaning of slice::Iter::all trusted as for D1)']},
-    'C16': {'verus': ['int_modadd2', 'int_modmul']},
-    'C19': {'verus': ['int_modadd2', 'int_modmul']},
+    'C16': {'verus': ['int_modadd2', 'int_modmul', 'int_moddiv']},
+    'C19': {'verus': ['int_modadd2', 'int_modmul', 'int_moddiv']},
 }
